@@ -24,7 +24,10 @@ RULE = (
     "gates (depth-first enumeration incl. bursts; exhaustive when within the per-case budget, otherwise the budget plus Hypothesis-drawn "
     "scripts). Oracle = differential: every response equals (canonical JSON) the response the same request gave when run alone on that "
     "engine beforehand; every resolver call landed in its own request's log with that request's context, arguments and data; the solo "
-    "runs repeated afterwards are unchanged. Distinct = SHA-1 of (requests, schedule); non-trivial = gates of >= 2 requests were "
+    "runs repeated afterwards are unchanged. Absolute anchors under the differential comparison: a valid fault-free request run alone must "
+    "give the reference executor's data; introspection requests (schema-owned lists, both includeDeprecated views, fields hidden by "
+    "@nonIntrospectable, deprecated, or visible only to even-numbered callers through an on_introspection hook) must list exactly the "
+    "fields visible to their caller. Distinct = SHA-1 of (requests, schedule); non-trivial = gates of >= 2 requests were "
     "released alternately (A, B, A)."
 )
 ASSUMPTIONS = c08.ASSUMPTIONS
